@@ -134,6 +134,15 @@ static void battery(const Case &c) {
             if (!check_state("store-over-altered-medium")) return;
             vp::cls("store-over-altered-medium");
         }
+        {
+            // a partial store of no octets at all is still a store: afterwards the checksum on the medium matches the data on the medium
+            M().mem[cfg.data_addr() + cfg.size / 2] ^= 0x44; model[cfg.size / 2] ^= 0x44;           // out of band: the model follows the medium, the checksum cell does not
+            uint8_t none = 0;
+            CALL(c, "store_part", rc = persistent_store_part(&in.st, &none, cfg.size / 2, 0));
+            if (rc != PERSISTENT_ACCESS_SUCCESS) { F(c, "store_part:failed", std::string("empty partial store: ") + acc_name(rc)); return; }
+            if (!check_state("empty-store_part-over-altered-medium")) return;
+            vp::cls("empty-partial-store-over-altered-medium");
+        }
         if (cfg.size >= 2) {
             // a different image with the same trivial sum (two octets exchanged) resp. an image differing in one octet
             Bytes other = model;
